@@ -1,3 +1,4 @@
+import os
 from props import jsoncommon
 from props.common import generic_replay
 
@@ -14,7 +15,9 @@ RULE = ("TLC enumerates type shapes of spec/JsonTypes.tla (25 leaf kinds incl. N
         "the scanner's 8-byte words, must be written as the predicted literal by Marshal, Append, AppendEscape, Escape, Encoder and MarshalIndent, "
         "as a value, element, field value, map key and map value; plus spec/JsonEncoderStream.tla: every history of up to 4 (thorough 5) calls on "
         "one Encoder (values that can and cannot be encoded, SetEscapeHTML, SetIndent, a writer that refuses a Write) replayed into the Encoder and "
-        "into encoding/json's, returns and bytes compared per call with the specification's. distinct_nontrivial = distinct shapes / scenarios / unit sequences")
+        "into encoding/json's, returns and bytes compared per call with the specification's; plus spec/Base64.tla: the text its writer produces for "
+        "every byte string of up to 3 (thorough 4) bytes over {0, 65, 251, 255} behind 0, 11 (and 22) fixed groups is what Marshal, Append, Encoder and "
+        "MarshalIndent write for the bytes as a value, named type, behind a pointer, as a field, element, map value and in an interface. distinct_nontrivial = distinct shapes / scenarios / unit sequences")
 ASSUME = ["encoding/json is the oracle of record (the property is defined as agreement with it); it must agree with JsonFields.Visible",
           "time.Duration (the sanctioned difference) is not generated"]
 
@@ -51,6 +54,27 @@ def extra(ck, vec):
         g = vlib.must_hold(vlib.tlc("JsonEncoderStream", "Gen_JsonEncoderStream.cfg", workers=4, sink=sink, defines=ops), "encoder histories")
     ck.add_mc(g, "Gen_JsonEncoderStream")
     ck.notes["encoder_histories"] = g.vectors
+    # the text of a []byte: the writer of spec/Base64.tla, one group per step (the reader's half is decided in C02)
+    b64 = jsoncommon.base64_defines(thorough)
+    mc = vlib.must_hold(vlib.tlc("Base64", "MC_Base64.cfg", workers=8, defines=b64, timeout=3000),
+                        "Base64: length and padding laws, round trip, line breaks invisible, damaged padding rejected")
+    ck.add_mc(mc, "MC_Base64")
+    w = vlib.tlc("Base64", "MC_Base64DropTail.cfg", workers=4, expect_violation=True)
+    if w.ok or w.violation != "RoundTrip":
+        raise vlib.Infra("Base64 with a writer that forgets the last group should violate RoundTrip: the model is vacuous")
+    ck.add_mc(w, "MC_Base64DropTail(vacuity witness)")
+    raw = vec + ".b64"
+    with open(raw, "w") as sink:
+        g = vlib.must_hold(vlib.tlc("Base64", "Gen_Base64.cfg", workers=8, sink=sink, defines=b64, timeout=3000), "base64 texts")
+    ck.add_mc(g, "Gen_Base64")
+    n = 0
+    with open(vec, "a") as sink:
+        for line in open(raw):
+            if '"b64":"canon"' in line:
+                sink.write(line)
+                n += 1
+    os.unlink(raw)
+    ck.notes["base64_texts"] = n
 
 
 STR_SUB = '{"a", "q", "sc", "c", "h", "r2", "r4", "ls", "x", "tr"}'
